@@ -1,1 +1,19 @@
-fn main() {}
+//! Harness for the cluster layer (crates/sierradb-cluster): circuit breaker schedules,
+//! confirmation watermarks, replicator, reads, subscriptions, virtual cluster.
+use hcommon::Report;
+
+mod breaker;
+
+fn main() {
+    if std::env::var("VERIF_LOUD").is_err() {
+        hcommon::quiet_panics();
+    }
+    let args: Vec<String> = std::env::args().collect();
+    let mut rep = Report::new();
+    match args[1].as_str() {
+        "breaker" => breaker::breaker_cmd(&mut rep, &args[2], &args[3], args.get(4).map(|s| s.as_str()).unwrap_or("conform")),
+        other => panic!("unknown subcommand {other}"),
+    }
+    rep.finish();
+    std::process::exit(0);
+}
